@@ -77,6 +77,8 @@ MUTANTS = [
     ("C18", R, "signal += np.random.normal(0, self.coeff, signal.shape)", "signal += np.random.normal(0, self.coeff, signal.shape) * (1 + 1e-3 * np.sign(signal))", "K", "signal-dependent noise"),
     ("C19", SC, "(50.0 * scale + 221.1) / 61.0", "(50.0 * scale + 221.2) / 61.0", "K", "Bark constant"),
     ("C19", SC, "if low_hz <= 0:", "if low_hz < 0:", "K", "octave guard"),
+    ("C19", SC, "(2.0 ** scale)", "(2 ** scale)", "K", "revert fix D31"),
+    ("C19", SC, "(hertz - float(self.low_hz))", "(hertz - self.low_hz)", "K", "revert fix D33"),
     ("C20", U, "    if dft_size is None:\n        dft_size = len(filt) + start_idx\n    shift %= dft_size", "    shift %= dft_size\n    if dft_size is None:\n        dft_size = len(filt) + start_idx", "K", "revert fix D21"),
     ("C20", F, "window /= 0.42 * max(1, width - 1)", "window /= 0.42 * max(1, width)", "K", "window area"),
 ]
